@@ -4,11 +4,14 @@
    (2) the CS101 queue ring (cs101_queue.c, literal model Link/Cs101Queue.v) refines a bounded FIFO that displaces the
    oldest entry; (3) class order: a class 1 entry is taken only by a class 1 request, the access-demand bit tells the
    master to ask for class 1 first.
+   (4) literal model of the unbalanced primary (LinkPrim, the sc_ functions), ALL sequences of received frames, clock values and application
+   calls (send, class 1/2 request, link test): a message handed over is written as a NEW user-data frame at most once unless the
+   link failure was reported, the slave answered negatively or the message was confirmed (repaired code; refuted for the original).
    NOT proved: that the composition LinkPrim x channel x LinkSec refines (1).  The step lemmas of C15 are the
    ingredients; the composition itself is checked by differential execution of the composed model against the real
    CS101_Master / CS101_Slave objects on the simulated line, and by the exactly-once oracle, on every run. *)
 From Coq Require Import ZArith List Bool.
-From L60870 Require Import Link.Abp Link.AbpProofs Link.Cs101Queue Link.Cs101QueueProofs Link.Ft12 Link.LinkSec Link.LinkPrim Link.LinkProofs.
+From L60870 Require Import Link.Abp Link.AbpProofs Link.Cs101Queue Link.Cs101QueueProofs Link.Ft12 Link.LinkSec Link.LinkPrim Link.LinkProofs Link.LinkOnce.
 Import ListNotations.
 Local Open Scope Z_scope.
 
@@ -56,6 +59,30 @@ Theorem C16_class_order : forall c s (cls : bool) fcb d rest, fcb = su_efcb s ->
   (if cls then su_q1 s' = rest /\ su_q2 s' = su_q2 s else su_q2 s' = rest /\ su_q1 s' = su_q1 s) /\
   snd (su_request c s cls fcb true) = tx_opt (enc_var (alen c) 8 (su_addr s) false false (q_nonempty (su_q1 s')) false d).
 Proof. exact su_request_new. Qed.
+
+(* the master side, literal model, every history: no message goes out as a new frame twice while the link is up *)
+Theorem C16_message_new_frame_once_unbalanced : forall v c evs s m, fg v = true -> good s m -> m_bad (u_mon v c s m evs) = false.
+Proof. exact sc_message_new_once. Qed.
+
+Theorem C16_message_new_frame_once_unbalanced_from_power_up : forall v c a evs, fg v = true ->
+  m_bad (u_mon v c (sc_init a) {| m_sent := false; m_bad := false |} evs) = false.
+Proof. exact sc_message_new_once_from_power_up. Qed.
+
+Theorem C16_message_new_frame_once_unbalanced_refuted : exists v c s evs,
+  fg v = false /\ good s {| m_sent := false; m_bad := false |} /\
+  m_bad (u_mon v c s {| m_sent := false; m_bad := false |} evs) = true.
+Proof. exact sc_message_new_once_refuted. Qed.
+
+(* the monitor's events are the real ones: a "new user-data frame" is one FC 3 frame with FCV, the next frame count bit and the
+   waiting message; "failure reported" is the link-state callback *)
+Theorem C16_new_frame_is_user_data : forall v c now s,
+  sc_ps s = PLL_AVAILABLE -> sc_ps (fst (sc_run v c now s)) = PLL_SEND_CONFIRM ->
+  snd (sc_run v c now s) = tx_opt (enc_var (alen c) 3 (sc_addr s) true false (sc_nfcb s) true (sc_msg s)) /\ sc_has s = true.
+Proof. exact new_data_frame_octets. Qed.
+
+Theorem C16_failure_is_reported : forall v c s e, sc_ls s <> LS_ERROR -> sc_ls (fst (u_step v c s e)) = LS_ERROR ->
+  In (OLs (sc_addr s) LS_ERROR) (snd (u_step v c s e)).
+Proof. exact failure_is_reported. Qed.
 
 Example C16_example :
   delivered nat (abp_run nat (abp_init nat [1; 2; 3]%nat)
